@@ -10,10 +10,14 @@
 #![allow(dead_code)]
 mod act;
 mod alloc;
+mod c13;
+mod c18;
+mod c19;
 mod checks;
 mod exec;
 mod explore;
 mod faults;
+mod io;
 mod ledger;
 mod model;
 mod report;
@@ -171,6 +175,10 @@ fn run(args: &[String]) -> Result<(), String> {
             with_n!(n, [checks::bfs_check], &prop, &o, &mut rep)
         }
         "C05" | "C06" | "C10" => with_n!(n, [faults::fault_check], &prop, &o, &mut rep),
+        "C13" => c13::c13_check(n, &o, &mut rep),
+        "C19" => c19::c19_check(n, &o, &mut rep),
+        "C14" => with_n!(n, [io::c14_check], &o, &mut rep),
+        "C16" => with_n!(n, [io::c16_check], &o, &mut rep),
         "C04" => with_n!(n, [spaces::c04_check], &o, &mut rep),
         "C07" => with_n!(n, [spaces::c07_check], &o, &mut rep),
         "C08" => with_n!(n, [spaces::c08_check], &o, &mut rep),
@@ -184,6 +192,68 @@ fn run(args: &[String]) -> Result<(), String> {
     Ok(())
 }
 
+/// cbx c18 <N> <tier> <outfile> [--recipes FILE] [--shard i/k]
+fn c18(args: &[String]) -> Result<i32, String> {
+    use std::io::Write;
+    let n: usize = args.get(0).ok_or("missing N")?.parse().map_err(|_| "bad N")?;
+    let tier = args.get(1).cloned().unwrap_or_else(|| "quick".into());
+    let out = args.get(2).ok_or("missing output file")?.clone();
+    let mut shard = (0usize, 1usize);
+    let mut recipes: Option<Vec<explore::Recipe>> = None;
+    let mut i = 3;
+    while i < args.len() {
+        match args[i].as_str() {
+            "--shard" => {
+                let (a, b) = args.get(i + 1).ok_or("missing shard")?.split_once('/').ok_or("bad shard")?;
+                shard = (a.parse().map_err(|_| "bad shard")?, b.parse().map_err(|_| "bad shard")?);
+                i += 2;
+            }
+            "--recipes" => {
+                let text = std::fs::read_to_string(args.get(i + 1).ok_or("missing recipes file")?).map_err(|e| e.to_string())?;
+                let mut v = vec![];
+                for l in text.lines() {
+                    let (c, a) = l.split_once('\t').ok_or("bad recipe line")?;
+                    v.push(explore::Recipe::parse(c, a).ok_or("bad recipe")?);
+                }
+                recipes = Some(v);
+                i += 2;
+            }
+            x => return Err(format!("unknown option {}", x)),
+        }
+    }
+    let o = checks::Opts { tier, shard, key: None };
+    let mut f = std::io::BufWriter::new(std::fs::File::create(&out).map_err(|e| e.to_string())?);
+    let mut rf = std::io::BufWriter::new(std::fs::File::create(format!("{}.recipes", out)).map_err(|e| e.to_string())?);
+    let t0 = std::time::Instant::now();
+    let (nrec, lines) = with_n!(n, [c18::c18_transcript], &o, recipes, &mut f, &mut rf);
+    f.flush().map_err(|e| e.to_string())?;
+    rf.flush().map_err(|e| e.to_string())?;
+    DONE.store(true, Ordering::Relaxed);
+    println!("{{\"recipes\":{},\"lines\":{},\"wall_s\":{:.3}}}", nrec, lines, t0.elapsed().as_secs_f64());
+    Ok(0)
+}
+
+/// cbx c18-one <N> <ctor> <recipe> <act> <fault>: one transcript line (replay of a C18 difference)
+fn c18_one(args: &[String]) -> Result<i32, String> {
+    let g = |i: usize| args.get(i).cloned().unwrap_or_default();
+    let n: usize = g(0).parse().map_err(|_| "bad N")?;
+    fn one<const N: usize>(ctor: &str, recipe: &str, act: &str, fault: &str) -> Result<String, String> {
+        let fault = explore::parse_fault(fault).ok_or("bad fault")?;
+        if act == "ctor" {
+            let c = act::Ctor::parse(ctor).ok_or("bad ctor")?;
+            let (_, _, probs, summary) = faults::ctor_fault_case::<N>("C05", c, fault);
+            return Ok(format!("{} problems[{}]", summary, probs.iter().map(|p| p.0.kind.name()).collect::<Vec<_>>().join(",")));
+        }
+        let r = explore::Recipe::parse(ctor, recipe).ok_or("bad recipe")?;
+        let a = act::Act::parse(act).ok_or("bad action")?;
+        Ok(c18::transcript_case::<N>(&r, &a, fault).0)
+    }
+    let line = with_n!(n, [one], &g(1), &g(2), &g(3), &g(4))?;
+    DONE.store(true, Ordering::Relaxed);
+    println!("{}", line);
+    Ok(0)
+}
+
 fn replay(args: &[String]) -> Result<i32, String> {
     let g = |i: usize| args.get(i).cloned().unwrap_or_default();
     let prop = g(0);
@@ -192,6 +262,9 @@ fn replay(args: &[String]) -> Result<i32, String> {
     let r = match prop.as_str() {
         "C01" | "C02" | "C03" | "C11" | "C17" | "C20" => with_n!(n, [checks::replay_bfs], &case),
         "C05" | "C06" | "C10" => with_n!(n, [faults::replay_fault], &case),
+        "C13" => c13::replay_c13(&case),
+        "C19" => c19::replay_c19(&case),
+        "C14" | "C16" => with_n!(n, [io::replay_io], &case),
         "C04" => with_n!(n, [spaces::replay_c04], &case),
         "C07" => with_n!(n, [spaces::replay_c07], &case),
         "C08" => with_n!(n, [spaces::replay_c08], &case),
@@ -214,6 +287,8 @@ fn main() {
     let r = std::panic::catch_unwind(|| match args.first().map(|s| s.as_str()) {
         Some("run") => run(&args[1..]).map(|_| 0),
         Some("replay") => replay(&args[1..]),
+        Some("c18") => c18(&args[1..]),
+        Some("c18-one") => c18_one(&args[1..]),
         _ => Err("usage: cbx run <PROPERTY> <N> <tier> [--shard i/k]".to_string()),
     });
     match r {
